@@ -571,7 +571,10 @@ impl<M: Manager, W: From<Object<M>>> Pool<M, W> {
             // they are released.
             slots.debt += surplus;
             // Drop the idle objects which are no longer backed by a permit.
-            while slots.vec.len() > self.inner.semaphore.available_permits() {
+            // Available permits which are still owed (`debt`) do not count:
+            // they show up when a waiting `get` which had already been
+            // assigned a permit is cancelled.
+            while slots.vec.len() + slots.debt > self.inner.semaphore.available_permits() {
                 if let Some(mut obj) = slots.vec.pop_front() {
                     slots.size -= 1;
                     self.inner.manager.detach(&mut obj.obj);
